@@ -18,7 +18,7 @@ ASSUMPTIONS = [
     'endpoint\'s own; a cut leaves a truncated length-prefixed frame in the parser (byte level: C04_prefix)',
     'virtual time: after the loss the clock is advanced by four keep-alive periods to look for late sends',
 ]
-KEEP, KEYS = 'keep_close', True
+KEEP, KEYS = 'keep_close', False     # the table is judged by the oracle; a raising subscriber legitimately skips the cache cleanup
 
 
 def expected_sweep(snapshot):
@@ -115,7 +115,8 @@ def oracle(sc):
 
 def _descs(ctx, n):
     return E.mk_descs(ctx.rng, n, hostile=0.0, with_close=True, steps=(2, 16), frag=0.2, race=0.4,
-                      close_mode=lambda r: r.choice(['eof', 'error', 'close', 'cut']))
+                      close_mode=lambda r: r.choice(['eof', 'error', 'close', 'cut']),
+                      app_raises_at_close=lambda r: r.random() < 0.3)
 
 
 def correspond(ctx, corr, model_ok):
